@@ -11,7 +11,7 @@ SLACK = 1000
 class C20(Prop):
     pid = "C20"
     props_file = "Props/C20.v"
-    model_targets = ["theories/Agent/Lifecycle.vo"]
+    model_targets = ["theories/Agent/Lifecycle.vo", "theories/Agent/LifecycleLTS.vo"]
     technique = "Coq proofs over all health-check histories and thresholds (gating; exit exactly at the first window of consecutive failures, characterised completely) and the graceful-shutdown decision table + black-box run of the real agent binary with a scripted health endpoint, a fake proxy logging list calls, and SIGINT/SIGTERM at chosen request phases"
     level_text = ("C20_gate / C20_gate_never prove that polling starts right after the first passing check and never before; C20_unhealthy proves for every history of checks and every threshold (minimum 1) that the agent terminates itself exactly at the first check at which the number of consecutive failures reaches the threshold "
                   "(a success resets it) and otherwise never; C20_graceful states the shutdown decisions (exit at the signal without the option, at t_sig + G with it; a request whose answer and upload complete before that is answered; no list call starts after the signal). "
@@ -135,8 +135,102 @@ class C20(Prop):
         txt, out, dt = C.eval_cases(ctx.work, "cases_c20", body)
         if txt is None:
             return [("cases_c20.v (model evaluation)", "coqc failed: " + out[-800:], {})], 0, {}
-        mism = [("Lifecycle.wait_healthy/health_exit", "polling / self-termination of the agent differs from the model on the observed check results", {"scenario": rows[i]["scenario"], "health_results": rows[i]["health_results"], "exit_ms": rows[i]["exit_ms"], "list_starts_ms": rows[i]["list_starts_ms"][:3]}) for i in C.parse_z_list(txt)]
-        return mism, len(items), {"coqc_s": round(dt, 2), "cases": len(items)}
+        lts_mism, lts_n, lts_info = self.lts_check(ctx, obs)
+        mism = lts_mism + [("Lifecycle.wait_healthy/health_exit", "polling / self-termination of the agent differs from the model on the observed check results", {"scenario": rows[i]["scenario"], "health_results": rows[i]["health_results"], "exit_ms": rows[i]["exit_ms"], "list_starts_ms": rows[i]["list_starts_ms"][:3]}) for i in C.parse_z_list(txt)]
+        return mism, len(items) + lts_n, {"coqc_s": round(dt, 2), "cases": len(items), "lts": lts_info}
+
+    @staticmethod
+    def lts_trace(r):
+        """One observed run as a timed trace of Agent/LifecycleLTS.v: (cfg, [(time, label)], expected exit code or None)."""
+        sc = r["scenario"]
+        hc = bool(sc.get("checks"))
+        sig = r.get("signal_ms", -1)
+        exit_ms, code = r["exit_ms"], r["exit_code"]
+        g = sc.get("grace_ms", 0)
+        ev = []  # (time, priority, label)
+        for t, ok in zip(r["health_times_ms"], r["health_results"]):
+            ev.append((t, 0, 0, "Check %s" % C.blit(ok)))
+        registered = (not hc) or any(ok and t <= sig for t, ok in zip(r["health_times_ms"], r["health_results"]))
+        carrier = None
+        if r.get("at_backend_ms", -1) >= 0:
+            c = [i for i, t in enumerate(r["list_returns_ms"]) if t <= r["at_backend_ms"]]
+            carrier = c[-1] if c else None
+        # list calls: start i, return i, start i+1, ... in this order also within one millisecond.  The fake proxy sees a call a
+        # little after the loop decided to make it: a start observed within 120 ms after the signal (and what precedes it) is
+        # placed at the signal (the same tolerance as in the oracle)
+        starts, rets = r["list_starts_ms"], r["list_returns_ms"]
+        late = [i for i, t in enumerate(starts) if sig >= 0 and sig < t <= sig + 120]
+        clamp_upto = 2 * late[-1] if late else -1
+        for i, t in enumerate(starts):
+            ev.append((min(t, sig) if 2 * i <= clamp_upto else t, 1, 2 * i, "ListStart"))
+        for i, t in enumerate(rets):
+            ev.append((min(t, sig) if 2 * i + 1 <= clamp_upto else t, 1, 2 * i + 1, "ListReturn [1]" if i == carrier else "ListReturn []"))
+        if carrier is not None:
+            ev.append((r["at_backend_ms"], 3, 0, "Work 1"))
+            if r.get("upload_ok") and r.get("upload_done_ms", -1) >= 0:
+                ev.append((r["upload_done_ms"], 3, 1, "Work 1"))
+                ev.append((r["upload_done_ms"], 3, 2, "Work 1"))
+        cause = None
+        if sig >= 0:
+            ev.append((sig, 4, 0, "Sig"))
+            if registered:
+                ev.append((sig, 5, 0, "SigTake"))
+                ev.append((sig, 6, 0, "MainWake"))
+            if sc.get("second_signal"):
+                t2 = sig + sc.get("second_signal_after_ms", 0)
+                if exit_ms < 0 or t2 < exit_ms:
+                    ev.append((t2, 4, 0, "Sig"))
+        expected = None
+        if exit_ms >= 0:
+            expected = {0: 0, 1: 1, -1: 2}.get(code, 9)
+            if sig >= 0 and registered and g > 0 and code == 1:
+                ev.append((exit_ms, 9, 0, "Deadline"))
+                cause = (exit_ms, 9)
+            elif sig >= 0 and code in (0, -1):
+                cause = (sig, 6 if registered else 4)
+            elif code == 1 and r["health_times_ms"]:
+                cause = (r["health_times_ms"][-1], 0)
+            else:
+                cause = (exit_ms, 9)
+        ev.sort(key=lambda e: (e[0], e[1], e[2]))
+        if cause is not None:
+            # what the harness logs after the step that ended the process (connections torn down) is not a step of the process
+            ev = [e for e in ev if (e[0], e[1]) <= cause]
+        cfg = "{| hc_enabled := %s; thr := %d; grace := Z.to_nat %d; sig_cap := sigcap |}" % (C.blit(hc), sc.get("threshold", 0), g)
+        return cfg, [(e[0], e[3]) for e in ev], expected
+
+    def lts_check(self, ctx, obs):
+        rows, items = [], []
+        for r in obs["rows"]:
+            if r.get("err"):
+                continue
+            cfg, ev, expected = self.lts_trace(r)
+            labels, now = [], 0
+            for t, l in ev:
+                if t > now:
+                    labels.append("Tick (Z.to_nat %d)" % (t - now))
+                    now = t
+                labels.append(l)
+            items.append("check_case (%s) %s %s" % (cfg, C.llit(labels), "None" if expected is None else "(Some %d)" % expected))
+            rows.append((r, ev, expected, labels))
+        body = "\n".join(["From Coq Require Import ZArith List Bool Arith.", "From IP Require Import Gen.SrcFacts_Agent Agent.LifecycleLTS Lib.Util.", "Import ListNotations.",
+                          "Definition sigcap : nat := Z.to_nat (hd 1%Z shutdownChanCaps).",
+                          "(* 0 = the observed run is a trace of the LTS ending with the observed exit status; 1000 + i = label i is not enabled; 2 = wrong exit status *)",
+                          "Definition check_case (c : cfg) (tr : list label) (code : option nat) : Z :=",
+                          "  match check_trace c tr code with 0%Z => 0%Z | 1%Z => (1000 + Z.of_nat (match first_disabled c (init c) tr 0 with Some i => i | None => 0 end))%Z | z => z end.",
+                          "Definition codes : list Z := " + C.llit(items) + ".",
+                          "Definition verif_result : list Z := Eval vm_compute in (map (fun p => fst p * 100000 + snd p)%Z (nonzero_indices 0%Z codes))."])
+        txt, out, dt = C.eval_cases(ctx.work, "cases_c20_lts", body)
+        if txt is None:
+            return [("cases_c20_lts.v (model evaluation)", "coqc failed: " + out[-800:], {})], 0, {}
+        mism = []
+        for v in C.parse_z_list(txt):
+            idx, code = v // 100000, v % 100000
+            r, ev, expected, labels = rows[idx]
+            what = "ends with exit status %s, the trace of the model does not" % expected if code == 2 else "label %d (%s) is not enabled in the model" % (code - 1000, labels[code - 1000] if 0 <= code - 1000 < len(labels) else "?")
+            mism.append(("LifecycleLTS.check_trace", "scenario %s: the observed run is not a trace of the life-cycle LTS: %s" % (r["scenario"]["name"], what),
+                         {"scenario": r["scenario"], "timed_labels": ev[:60], "expected_exit": expected, "observed": {k: v for k, v in r.items() if k not in ("scenario", "stderr_tail")}}))
+        return mism, len(items), {"coqc_s": round(dt, 2), "traces": len(items), "labels": sum(len(x[3]) for x in rows)}
 
     def coverage(self, ctx, obs):
         hist = collections.Counter(r["scenario"]["kind"] for r in obs["rows"])
